@@ -130,3 +130,7 @@ func c14Boundary(n int) {
 func VerifHarness_C14_Len999()  { c14Boundary(999) }
 func VerifHarness_C14_Len1000() { c14Boundary(1000) }
 func VerifHarness_C14_Len1001() { c14Boundary(1001) }
+
+// F4: symbolic bytes framed by ordinary letters, so that whitespace / control bytes are interior
+func VerifHarness_C14_Framed3() { c14Body("a" + verifString("q", 3) + "b") }
+func VerifHarness_C14_Framed4() { c14Body("a" + verifString("q", 4) + "b") }
